@@ -184,6 +184,7 @@ pub struct Stats {
     pub stashes: u64,
     pub handle_ops: u64,
     pub known_c10_fw: u64,
+    pub drop_faults: u64,
     pub trace_ticks: u64,
     /// coverage cells: name -> hits
     pub cells: BTreeMap<String, u64>,
